@@ -28,7 +28,7 @@ theorem C07_insort_stable (U : Universe) (s : St) (p : Obj)
   insort_spec U s p h
 
 /-- After every history of operations `processors` is sorted by non-decreasing priority. -/
-theorem C07_sorted (U : Universe) (hints : List (List Ent)) (ops : List Op) :
+theorem C07_sorted (U : Universe) [U.NoReenter] (hints : List (List Ent)) (ops : List Op) :
     (run U { sweepHints := hints } ops).sorted.Pairwise
       (fun a b => priority U (run U { sweepHints := hints } ops) a ≤
                   priority U (run U { sweepHints := hints } ops) b) :=
@@ -36,7 +36,7 @@ theorem C07_sorted (U : Universe) (hints : List (List Ent)) (ops : List Op) :
 
 /-- A world holds at most one processor per exact type, and the type dictionary and the sorted
 list always describe the same set of processors. -/
-theorem C07_one_per_type (U : Universe) (hints : List (List Ent)) (ops : List Op) :
+theorem C07_one_per_type (U : Universe) [U.NoReenter] (hints : List (List Ent)) (ops : List Op) :
     let s := run U { sweepHints := hints } ops
     s.sorted.Nodup ∧
     (∀ p q, p ∈ s.sorted → q ∈ s.sorted → tyOf U p = tyOf U q → p = q) ∧
@@ -47,7 +47,7 @@ theorem C07_one_per_type (U : Universe) (hints : List (List Ent)) (ops : List Op
 /-- `process(dt)` — when the pending deletions are applied without error and no callback raises —
 calls every registered processor exactly once with that `dt`, in the order of `processors`,
 and calls no other processor. -/
-theorem C07_process_once (U : Universe) (hn : NoRaise U) (s : St) (dt : String)
+theorem C07_process_once (U : Universe) [U.NoReenter] (hn : NoRaise U) (s : St) (dt : String)
     (hd : (clearDead U s).2 = .ok) :
     (process U s dt).2 = .ok ∧
     procEntries (process U s dt).1.log = (s.sorted.map (·, dt)).reverse ++ procEntries s.log := by
@@ -72,7 +72,7 @@ theorem C07_process_once (U : Universe) (hn : NoRaise U) (s : St) (dt : String)
 /-- Adding a processor of a type that is already present replaces the old instance: afterwards the
 new one is the only processor of that type, so (`C07_process_once`) the old one is never called
 again. -/
-theorem C07_replace (U : Universe) (hints : List (List Ent)) (ops : List Op) (p : Obj)
+theorem C07_replace (U : Universe) [U.NoReenter] (hints : List (List Ent)) (ops : List Op) (p : Obj)
     (prio? : Option Int)
     (hok : (addProcessor U (run U { sweepHints := hints } ops) p prio?).2 = .ok) :
     let s' := (addProcessor U (run U { sweepHints := hints } ops) p prio?).1
